@@ -150,8 +150,16 @@ class Queue(Entity):
         """Driver is asking for work."""
         next_item = self.policy.pop()
         if next_item is None:
+            # Answer with an empty delivery so the requestor knows its poll
+            # is settled and may poll again when it is notified.
             logger.debug("[%s] Poll received but queue is empty", self.name)
-            return []
+            if event.requestor is None:
+                return []
+            return [
+                QueueDeliverEvent(
+                    time=self.now, target=event.requestor, payload=None, queue_entity=self
+                )
+            ]
 
         logger.debug(
             "[%s] Delivering event to driver: type=%s depth=%d",
